@@ -479,6 +479,10 @@ def _fails_only_without_handle(P, g, depth=0):
         before = [s for s in stores if g.ev_dominates(s[0], ev) or s[0]['b'] == ev['b'] and s[0]['x'] < ev['x']]
         if not before:
             continue            # nothing stored yet on this failing path
+        # the path took the handle back: the last store before the failing return clears the slot again
+        nulls = [s_ for s_ in before if s_[1] in ('0', 'NULL', '(void *)0')]
+        if nulls and all(s_ is nl or g.ev_dominates(s_[0], nl[0]) for nl in nulls[-1:] for s_ in before):
+            continue
         if v[0] == 'l' and v[1] != 0:
             guards = [pstr(c[1]) for c in g.ctl_chain(ev) if c[0] == 'if' and c[1] is not None]
             if all(any(('(%s == 0)' % sv) in gd or ('!%s' % sv) == gd for gd in guards) for _, sv in before):
